@@ -14,7 +14,8 @@ def main():
     faulthandler.enable()
     prop, shard_json, out = sys.argv[1], sys.argv[2], sys.argv[3]
     shard = json.loads(shard_json)
-    from . import env, monitor, oracle
+    from . import env, monitor, oracle, cover
+    cover.start(os.environ.get("VP_REPO", "/repo"))
     seed = int(os.environ.get("VERIF_SEED", "0"))
     tier = os.environ.get("VERIF_TIER", "quick")
     rec = monitor.Recorder(prop, shard["name"], shard.get("backend", "np"), env.mode(), seed, tier)
@@ -68,6 +69,7 @@ def main():
         else:  # harness failure: inconclusive, never a verdict on the library
             rec.inconclusive("worker crashed: %s: %s\n%s" % (type(e).__name__, e, traceback.format_exc()[-1500:]))
     res = rec.result()
+    res["lines"] = cover.result()
     try:
         import numpy
         numpy.array(sorted(rec.nontrivial), dtype=numpy.uint64).tofile(out + ".dig")
